@@ -1,4 +1,5 @@
 import PugModel.Strip.Clean
+import PugModel.Gen.Tables
 /-!
 # C14 â€” stripTags emits only allow-listed tags/attributes; all else becomes inert text
 
@@ -152,5 +153,31 @@ theorem C14_attr_value_safe (v : String) : âˆ€ c âˆˆ (htmlEscape v).toList, c â‰
 
 /-- the void-element test uses the table read from pug_parser.go -/
 theorem C14_extract : Gen.voidTags_ok = true := by decide
+
+/-! ## the code the model mirrors, by its control skeleton
+
+`Gen.stripSkeleton`: `cleanTags` and `getAllowedAttributes` (templatefunctions/striptags_func.go): the node kinds, the allow-list tests for tags and attributes, the escaping of what remains - every `if` / `switch` / `case` condition, loop header, `return`, `continue`, in source order with nesting depth,
+regenerated from the Go source on every run. It must be the skeleton the serializer model (`Strip`) was written against: a changed condition, an added
+branch or early exit reopens the obligation before any input is drawn. -/
+
+def expected_stripSkeleton : List (String Ã— String) :=
+  [("cleanTags", "0 if n.Type == html.ElementNode"),
+   ("cleanTags", "1 if ok"),
+   ("cleanTags", "0 if allowedTag.name != \"\""),
+   ("cleanTags", "1 if isSelfClosingTag(n)"),
+   ("cleanTags", "0 if n.Type == html.TextNode"),
+   ("cleanTags", "0 if n.FirstChild != nil"),
+   ("cleanTags", "1 for c != nil"),
+   ("cleanTags", "0 if allowedTag.name != \"\" && !isSelfClosingTag(n)"),
+   ("cleanTags", "0 return res"),
+   ("getAllowedAttributes", "0 range attributes"),
+   ("getAllowedAttributes", "1 if ok"),
+   ("getAllowedAttributes", "2 if attr.Val != \"\""),
+   ("getAllowedAttributes", "2 else "),
+   ("getAllowedAttributes", "0 return res")]
+
+/-- **C14 (the model's tie to the code, by shape).** -/
+theorem C14_strip_skeleton : Gen.stripSkeleton_ok = true âˆ§ Gen.stripSkeleton = expected_stripSkeleton := by
+  constructor <;> decide
 
 end Pug.Props.C14
